@@ -166,3 +166,67 @@ func interleaveCases(tier string) []gcase {
 	}
 	return out
 }
+
+// ---------------------------------------------------------------- misc family
+//
+// Hand-written programs around the protected-call functions themselves.
+
+type miscProg struct{ name, text string }
+
+var miscProgs = []miscProg{
+	{"pcall-no-args", "local r = table.pack(pcall(function()\nlocal r = pcall()\nemit(\"unreached\")\nend))\n" + packShow},
+	{"pcall-nil", "local r = table.pack(pcall(NILV))\n" + packShow},
+	{"pcall-number", "local r = table.pack(pcall(42, 1))\n" + packShow},
+	{"pcall-table", "local r = table.pack(pcall(TBL))\n" + packShow},
+	{"pcall-callable-table", "local ct = setmetatable({}, {__call = function(self, a)\nerror(V)\nend})\nlocal r = table.pack(pcall(ct, 1))\n" + packShow},
+	{"pcall-error-function", "local r = table.pack(pcall(error, V))\n" + packShow},
+	{"pcall-error-function-novalue", "local r = table.pack(pcall(error))\n" + packShow},
+	{"xpcall-no-handler", "local r = table.pack(pcall(function()\nlocal r = xpcall(site)\nemit(\"unreached\")\nend))\n" + packShow},
+	{"xpcall-nil-function", hIdentity + "local r = table.pack(xpcall(NILV, h))\n" + packShow},
+	{"xpcall-table-function", hIdentity + "local r = table.pack(xpcall(TBL, h, 1))\n" + packShow},
+	{"xpcall-error-function", hIdentity + "local r = table.pack(xpcall(error, h, V))\n" + packShow},
+	{"xpcall-args", hIdentity + "local r = table.pack(xpcall(function(a, b, c)\nemit(\"args\", a, b, c)\nerror(V)\nend, h, 1, nil, 3))\n" + packShow},
+	{"handler-uses-pcall", "local function h(m)\nlocal ok, e = pcall(function()\nerror(W)\nend)\nemit(\"h\", m, ok, e)\nreturn m\nend\nlocal r = table.pack(xpcall(site, h))\n" + packShow},
+	{"handler-uses-xpcall", "local function h2(m)\nemit(\"h2\", m)\nreturn m\nend\nlocal function h(m)\nlocal ok, e = xpcall(function()\nerror(W)\nend, h2)\nemit(\"h\", m, ok, e)\nreturn m\nend\nlocal r = table.pack(xpcall(site, h))\n" + packShow},
+	{"handler-returns-many", "local function h(m)\nemit(\"h\", m)\nreturn m, 2, 3\nend\nlocal r = table.pack(xpcall(site, h))\n" + packShow},
+	{"reraise-same-table", "local r = table.pack(pcall(function()\nlocal ok, e = pcall(site)\nemit(\"inner\", ok, e)\nerror(e)\nend))\n" + packShow},
+	{"reraise-string-level0", "local r = table.pack(pcall(function()\nlocal ok, e = pcall(function()\nerror(\"m\")\nend)\nemit(\"inner\", ok, e)\nerror(e, 0)\nend))\n" + packShow},
+	{"error-level-nil", "local r = table.pack(pcall(function()\nerror(\"m\", nil)\nend))\n" + packShow},
+	{"error-after-caught-error", "local r = table.pack(pcall(function()\npcall(site)\npcall(site)\nerror(W)\nend))\n" + packShow},
+	{"wrap-dead-call", "local w = coroutine.wrap(function()\nreturn 1\nend)\nemit(\"w\", w())\nlocal r = table.pack(pcall(w))\n" + packShow},
+	{"resume-dead", "local co = coroutine.create(site)\nemit(\"r1\", coroutine.resume(co))\nlocal r = table.pack(coroutine.resume(co))\n" + packShow + "\nemit(\"st\", coroutine.status(co))"},
+	{"yield-across-pcall-then-error", "local w = coroutine.wrap(function()\nlocal r = table.pack(pcall(function()\nlocal x = coroutine.yield(1)\nerror(x)\nend))\nemit(\"in-co\", r.n, table.unpack(r, 1, r.n))\nreturn \"co-done\"\nend)\nemit(\"w1\", w())\nemit(\"w2\", w(V))\nlocal r = table.pack(pcall(site))\n" + packShow},
+	{"yield-across-xpcall-then-error", hIdentity + "local w = coroutine.wrap(function()\nlocal r = table.pack(xpcall(function()\nlocal x = coroutine.yield(1)\nerror(x)\nend, h))\nemit(\"in-co\", r.n, table.unpack(r, 1, r.n))\nreturn \"co-done\"\nend)\nemit(\"w1\", w())\nemit(\"w2\", w(V))\nlocal r = table.pack(pcall(site))\n" + packShow},
+	{"error-in-nested-coroutines", "local outer = coroutine.wrap(function()\nlocal inner = coroutine.create(site)\nlocal ok, e = coroutine.resume(inner)\nemit(\"inner\", ok, e, coroutine.status(inner))\ncoroutine.yield(\"y\")\nerror(e)\nend)\nemit(\"o1\", outer())\nlocal r = table.pack(pcall(outer))\n" + packShow},
+	{"many-errors-in-loop", "local n = 0\nfor i = 1, 150 do\nlocal ok, e = pcall(site)\nif not ok and e == V then\nn = n + 1\nend\nend\nemit(\"n\", n)\nlocal r = table.pack(pcall(site))\n" + packShow},
+	{"many-xpcall-errors-in-loop", "local n = 0\nlocal function hq(m)\nn = n + 1\nreturn m\nend\nfor i = 1, 150 do\nxpcall(site, hq)\nend\nemit(\"n\", n)\nlocal r = table.pack(pcall(site))\n" + packShow},
+	{"nested-pcall-depth-12", "local function nest(d)\nif d == 0 then\nerror(V)\nend\nlocal ok, e = pcall(nest, d - 1)\nemit(\"lvl\", d, ok, e)\nerror(e)\nend\nlocal r = table.pack(pcall(nest, 12))\n" + packShow},
+	{"nested-pcall-depth-110", "local function nest(d)\nif d == 0 then\nerror(V)\nend\nlocal ok, e = pcall(nest, d - 1)\nif d % 50 == 0 then\nemit(\"lvl\", d, ok, e)\nend\nerror(e)\nend\nlocal r = table.pack(pcall(nest, 110))\n" + packShow},
+	{"method-on-string-nil", "local r = table.pack(pcall(function()\nlocal s = \"x\"\nlocal y = s:nomethod()\nend))\n" + packShow},
+	{"error-in-upvalue-closure-called-later", "local function mk()\nlocal k = 0\nreturn function()\nk = k + 1\nif k == 2 then\nerror(V)\nend\nreturn k\nend\nend\nlocal f = mk()\nemit(\"f1\", pcall(f))\nemit(\"f2\", pcall(f))\nemit(\"f3\", pcall(f))\nlocal r = table.pack(pcall(site))\n" + packShow},
+}
+
+func miscCases(tier string) []gcase {
+	var out []gcase
+	vals := []struct{ name, v, w string }{
+		{"tab", `{"v"}`, `{"w"}`},
+		{"str", `"v"`, `"w"`},
+	}
+	for _, mp := range miscProgs {
+		for _, vv := range vals {
+			var sb strings.Builder
+			sb.WriteString("local V = " + vv.v + "\n")
+			sb.WriteString(prelude)
+			sb.WriteString("local W = " + vv.w + "\nemit(\"W\", W)\n")
+			sb.WriteString("local function site()\nbump()\nerror(V)\nend\n")
+			sb.WriteString(mp.text + "\n")
+			sb.WriteString("EP(site, bump, getcnt)\n")
+			out = append(out, gcase{
+				key:    fmt.Sprintf("prog=%s v=%s", mp.name, vv.name),
+				chunks: []string{strings.ReplaceAll(sb.String(), "<A>", "")},
+				host:   "ctx",
+			})
+		}
+	}
+	return out
+}
